@@ -297,7 +297,8 @@ DEFINES = {"num": ("BUFFER_SIZE", C("42")), "neg": ("ERR_CODE", [P("unop", "-")]
            "str": ("PROMPT", S('"minishell> "')), "chr": ("SEP", CH("':'")), "bare": ("FT_DEBUG", None),
            "mac": ("LIMIT", [ID("macro", "INT_MAX")])}
 GLOBALS = {"sint": ("static int", 0, "g_count", "", C("0")), "cchar": ("const char", 1, "g_name", "", S('"ft"')),
-           "scint": ("static const int", 0, "g_tab", "[3]", "{1, 2, 3}"), "sptr": ("static char", 1, "g_buf", "", None)}
+           "scint": ("static const int", 0, "g_tab", "[3]", "{1, 2, 3}"), "sptr": ("static char", 1, "g_buf", "", None),
+           "sarr": ("static char", 0, "g_arr", "[sizeof(int)]", None), "marr": ("static char", 0, "g_line", "[BUFFER_SIZE + 1]", None)}
 PROTOS = {"int": ("", "int", 0, "ft_strlen2", [("char", 1, "s", "")]),
           "svoid": ("static ", "void", 0, "ft_swap", [("int", 1, "a", ""), ("int", 1, "b", "")]),
           "charp": ("", "char", 1, "ft_join", [("const char", 1, "a", ""), ("char", 0, "sep", ""), ("char", 1, "b", "")]),
